@@ -150,3 +150,43 @@ def add_where_out_self(m, x, k=12):
     y = x.copy() if m is np else x.copy()
     m.add(y, 1000, where=y > k, out=y)
     return y
+
+
+# ---- block-layout dependent references: the explorer sets CH to the chunks
+# of the dask operands (layout advertised at call time) before evaluating the
+# NumPy side of an op
+
+CH = []
+
+
+def demean0(b):
+    """A block function whose result depends on where the block boundaries are."""
+    b = np.asarray(b, dtype="f8")
+    if b.ndim == 0 or b.shape[0] == 0:
+        return b
+    return b - b.mean(axis=0, keepdims=True)
+
+
+def np_blockmap(fn, a, chunks):
+    """Apply fn to every block of ``a`` under the layout ``chunks``."""
+    import itertools
+
+    a = np.asarray(a)
+    if a.ndim == 0:
+        return fn(a)
+    out = np.empty(a.shape, dtype="f8")
+    offs = [np.concatenate([[0], np.cumsum(c)]).astype(int) for c in chunks]
+    for idx in itertools.product(*[range(len(c)) for c in chunks]):
+        sl = tuple(slice(offs[ax][i], offs[ax][i + 1]) for ax, i in enumerate(idx))
+        out[sl] = fn(a[sl])
+    return out
+
+
+def np_block_at(a, chunks, idx):
+    """Concatenation of the blocks selected by ``idx`` (an index into the block grid, axis 0)."""
+    a = np.asarray(a)
+    offs = np.concatenate([[0], np.cumsum(chunks[0])]).astype(int)
+    sel = np.arange(len(chunks[0]))[idx]
+    sel = np.atleast_1d(sel)
+    parts = [a[offs[k]:offs[k + 1]] for k in sel]
+    return np.concatenate(parts) if parts else a[:0]
